@@ -149,8 +149,9 @@ def run(ctx):
 
     # ------------------------------------------------------------ R6: every batch row is evaluated with its own parameters
     r6 = ctx.rule("C10.R6", "ROWS: all seven appliers, the constraint model and the main model interpreted END TO END with 2 batch rows of DIFFERENT symbolic parameters (and unbatched): each row of the batched result equals the unbatched evaluation at that row's parameters -- no row reads another row's parameters, auxiliary data or cached tensors (shared engines with C01.R9, C01.R10, C01.R12, C02.R9)", "ROWS", floor=20)
-    from .c01 import _apply_end_to_end, _apply_interpolating, _rate_end_to_end
+    from .c01 import _apply_end_to_end, _apply_interpolating, _build_end_to_end, _rate_end_to_end
     from .c02 import _constraint_template
+    _build_end_to_end(ctx, r6, reg)  # the batch size of THIS model reaches every applier, also for the second model built from one settings object
     _apply_end_to_end(ctx, r6, reg)
     _apply_interpolating(ctx, r6, reg)
     _rate_end_to_end(ctx, r6)
